@@ -51,10 +51,10 @@ def CustomOnly (f : State → State) : Prop :=
     custom backlog -/
 theorem customLeaves_of {E : Env} {P : State → Prop} (h : ∀ f, CustomOnly f → Pres P (modS f)) :
     (∀ h', Pres P (modS fun s => { s with hst := h' })) ∧
-    (∀ h' key data, Pres P (modS fun s =>
+    (∀ h' key data, 1 ≤ data.length → Pres P (modS fun s =>
       { s with hst := h', custom := addOrReplace s.custom E.handler.invalidates key data s.cfg.maxTx })) :=
   ⟨fun _ => h _ (fun _ => ⟨rfl, rfl, rfl, rfl, rfl, rfl, rfl, rfl, rfl, rfl, rfl, rfl⟩),
-   fun _ _ _ => h _ (fun _ => ⟨rfl, rfl, rfl, rfl, rfl, rfl, rfl, rfl, rfl, rfl, rfl, rfl⟩)⟩
+   fun _ _ _ _ => h _ (fun _ => ⟨rfl, rfl, rfl, rfl, rfl, rfl, rfl, rfl, rfl, rfl, rfl, rfl⟩)⟩
 
 /-- `handle_apply_summary` from its one state-changing leaf -/
 theorem handleApplySummary_pres {E : Env} {P : State → Prop} {u : Member} (hadd : Pres P (addUpdate E u))
@@ -76,9 +76,8 @@ theorem applyExistingReport_pres {E : Env} {P : State → Prop} {u : Member} {co
 /-- leaf obligations, identity/incarnation writers excluded. `okU u`: the update `u` may be stored (a pure
     side condition; `fun _ => True` for invariants that accept every update). -/
 structure Base (E : Env) (P : State → Prop) (okU : Member → Prop) : Prop where
-  /-- the Down-at-incarnation-0 updates the instance makes up itself (its previous identity, other identities of
-      its own address) -/
-  okDown0 : ∀ id, okU ⟨id, 0, .down⟩
+  /-- the Down-at-incarnation-0 update the instance makes up about its own (previous) identity -/
+  ownDown : ∀ s, P s → okU ⟨s.id, 0, .down⟩
   membersApply : ∀ u, okU u → Pres P (membersApply u)
   membersApplyExistingIf : ∀ u cond, okU u → Pres P (membersApplyExistingIf u cond)
   /-- the member `next` returns may become the probe target -/
@@ -89,8 +88,8 @@ structure Base (E : Env) (P : State → Prop) (okU : Member → Prop) : Prop whe
   modCtl : ∀ f, CtlKeep f → Pres P (modS f)
   /-- handler state only -/
   setHst : ∀ h', Pres P (modS fun s => { s with hst := h' })
-  /-- a custom broadcast accepted by the handler is enqueued -/
-  addCustom : ∀ h' key data, Pres P (modS fun s =>
+  /-- a custom broadcast accepted by the handler is enqueued (it is never empty) -/
+  addCustom : ∀ h' key data, 1 ≤ data.length → Pres P (modS fun s =>
     { s with hst := h', custom := addOrReplace s.custom E.handler.invalidates key data s.cfg.maxTx })
 
 section
@@ -190,15 +189,24 @@ theorem Base.broadcastApi : Pres P (Foca.broadcastApi E) := by
 
 theorem Base.leaveCluster : Pres P (Foca.leaveCluster E) := by
   unfold Foca.leaveCluster
+  refine Pres.getS_with (fun s hs => ?_)
   pres
-  · exact B.addUpdate _ (B.okDown0 _)
+  · exact B.addUpdate _ (B.ownDown s hs)
   · exact B.gossip
   · exact B.becomeUndead
 
 theorem Base.addBroadcast (d : Bytes) : Pres P (Foca.addBroadcast E d) := by
   unfold Foca.addBroadcast
-  pres
-  all_goals first | exact B.setHst _ | exact B.addCustom _ _ _
+  refine Pres.bind Pres.getS (fun s => ?_)
+  by_cases he : d.isEmpty = true
+  · simp only [he, if_true]; exact Pres.throwE _
+  · have hlen : 1 ≤ d.length := by
+      cases d with
+      | nil => simp at he
+      | cons x xs => simp
+    simp only [he, Bool.false_eq_true, if_false]
+    pres
+    all_goals first | exact B.setHst _ | exact B.addCustom _ _ _ hlen
 
 theorem Base.setConfig (cfg : Config) : Pres P (Foca.setConfig cfg) := by
   unfold Foca.setConfig
@@ -220,11 +228,24 @@ theorem Base.customLoop (sender : Option Id) (fuel : Nat) (data : Bytes) : Pres 
   | zero => unfold Foca.customLoop; exact Pres.throwE _
   | succ f ih =>
     unfold Foca.customLoop
-    pres
-    all_goals first
-      | exact B.setHst _
-      | exact B.addCustom _ _ _
-      | exact ih _
+    split
+    · split
+      · rename_i hi lo rest _
+        dsimp only
+        by_cases hbad : (hi * 256 + lo == 0 || decide (rest.length < hi * 256 + lo)) = true
+        · simp only [hbad, if_true]; exact Pres.throwE _
+        · have hlen : 1 ≤ (rest.take (hi * 256 + lo)).length := by
+            simp only [Bool.or_eq_true, beq_iff_eq, decide_eq_true_eq, not_or, Nat.not_lt] at hbad
+            rw [List.length_take]
+            omega
+          simp only [hbad, Bool.false_eq_true, if_false]
+          pres
+          all_goals first
+            | exact B.setHst _
+            | exact B.addCustom _ _ _ hlen
+            | exact ih _
+      · exact Pres.throwE _
+    · pres
 
 theorem Base.handleCustomBroadcasts (data : Bytes) (sender : Option Id) :
     Pres P (Foca.handleCustomBroadcasts E data sender) := by
@@ -253,11 +274,12 @@ theorem Base.reset_of : Pres P Foca.reset := by
 
 theorem Base.changeIdentity_of (i : Id) (p : Policy) : Pres P (Foca.changeIdentity E i p) := by
   unfold Foca.changeIdentity
+  refine Pres.getS_with (fun s hs => ?_)
   pres
   all_goals first
     | exact modId _ (fun s => ⟨rfl, rfl, rfl, rfl, rfl, Or.inl rfl⟩)
     | exact B.reset_of modId
-    | exact B.addUpdate _ (B.okDown0 _)
+    | exact B.addUpdate _ (B.ownDown s hs)
     | exact B.gossip
 
 theorem Base.attemptRejoin_of : Pres P (Foca.attemptRejoin E) := by
@@ -287,6 +309,8 @@ end
 structure Full (E : Env) (P : State → Prop) (okU okIn : Member → Prop) (okH : Header → Prop) : Prop
     extends Base E P okU where
   handleSelfUpdate : ∀ inc st, Pres P (handleSelfUpdate E inc st)
+  /-- another identity of the own address named by the input is stored as Down at incarnation 0 -/
+  inputDown : ∀ u, okIn u → okU ⟨u.id, 0, .down⟩
   senderOk : ∀ (s0 : State) (h : Header), okH h → P s0 → (h.src == s0.id || h.src.addr == s0.id.addr) = false →
     okU ⟨h.src, h.srcInc, .alive⟩
   applyOk : ∀ (s0 : State) (u : Member), okIn u → P s0 → (u.id == s0.id) = false →
@@ -362,7 +386,7 @@ theorem Full.applyOne (u : Member) (b : Bool) (hu : okIn u) : Pres P (Foca.apply
   · exact F.handleSelfUpdate _ _
   · rename_i h1
     split
-    · exact Pres.bind (F.toBase.applyUpdate _ _ (F.okDown0 _)) (fun _ => Pres.pure _)
+    · exact Pres.bind (F.toBase.applyUpdate _ _ (F.inputDown u hu)) (fun _ => Pres.pure _)
     · rename_i h2
       exact Pres.bind (F.toBase.applyUpdate _ _ (F.applyOk s u hu hs (by simpa using h1) (by simpa using h2))) (fun _ => Pres.pure _)
 
@@ -463,8 +487,8 @@ structure Leaves (E : Env) (P : State → Prop) : Prop where
   modCtl : ∀ f, CtlOnly f → Pres P (modS f)
   /-- handler state only -/
   setHst : ∀ h', Pres P (modS fun s => { s with hst := h' })
-  /-- a custom broadcast accepted by the handler is enqueued -/
-  addCustom : ∀ h' key data, Pres P (modS fun s =>
+  /-- a custom broadcast accepted by the handler is enqueued (it is never empty) -/
+  addCustom : ∀ h' key data, 1 ≤ data.length → Pres P (modS fun s =>
     { s with hst := h', custom := addOrReplace s.custom E.handler.invalidates key data s.cfg.maxTx })
 
 section
@@ -472,7 +496,7 @@ variable {E : Env} {P : State → Prop} (L : Leaves E P)
 include L
 
 theorem Leaves.base : Base E P (fun _ => True) where
-  okDown0 := fun _ => trivial
+  ownDown := fun _ _ => trivial
   membersApply := fun u _ => L.membersApply u
   membersApplyExistingIf := fun u cond _ => L.membersApplyExistingIf u cond
   membersNext := ⟨fun c hc => by
@@ -506,6 +530,7 @@ theorem Leaves.reuseDownIdentity : Pres P Foca.reuseDownIdentity := L.base.reuse
 theorem Leaves.full : Full E P (fun _ => True) (fun _ => True) (fun _ => True) where
   toBase := L.base
   handleSelfUpdate := L.handleSelfUpdate
+  inputDown := fun _ _ => trivial
   senderOk := fun _ _ _ _ _ => trivial
   applyOk := fun _ _ _ _ _ _ => trivial
   failedOk := fun _ _ _ _ => trivial
